@@ -36,7 +36,7 @@ ITEMS = [
     two_nums('^', 'builtin_pow',
              [('int_to_nonnegative_int_exact', '(P0@ is Int && P1@ is Int && P1@->Int_0 >= 0) ==> r@ == NumV::Int(int_pow(P0@->Int_0, P1@->Int_0 as nat))'),
               ('int_to_negative_int_exact_reciprocal',
-               '(P0@ is Int && P1@ is Int && P1@->Int_0 < 0 && P0@->Int_0 != 0) ==> r@ == NumV::Rat(1real / (int_pow(P0@->Int_0, (-P1@->Int_0) as nat) as real))')]),
+               '(P0@ is Int && P1@ is Int && P1@->Int_0 < 0 && P0@->Int_0 != 0) ==> r@ == NumV::Rat(1real / ir(int_pow(P0@->Int_0, (-P1@->Int_0) as nat)))')]),
     two_nums('gcd', 'builtin_gcd', [('value', '(P0@ is Int && P1@ is Int) ==> r@ == NumV::Int(int_gcd(P0@->Int_0, P1@->Int_0))')]),
     two_nums('lcm', 'builtin_lcm', [('value', '(P0@ is Int && P1@ is Int) ==> r@ == NumV::Int(int_lcm(P0@->Int_0, P1@->Int_0))')]),
     two_nums('&', 'builtin_bitand', [('value', '(P0@ is Int && P1@ is Int) ==> r@ == NumV::Int(int_and(P0@->Int_0, P1@->Int_0))')]),
